@@ -126,44 +126,7 @@ def check(repo, col, tier):
             except Und as e:
                 col.unk("R-C04-eq", fi, f"{fn}", f"outside the analysable fragment: {e}", node=fi.node)
         # ---- update law per state
-        if sp["states"] or "update_states" in cinfo.methods:
-            ev = kin.new_eval(repo)
-            fi = repo.method(name, "update_states")
-            try:
-                upd, S, P = kin.call_update(ev, repo, name, kind)
-                for kind_, stack, node_ in kin.foreign_saturation(ev):
-                    col.bad("R-C04-eq", fi, f"update_states: `{kind_}` inside the published kinetics",
-                            f"`{unparse(node_)[:70]}` saturates a quantity of {name}.update_states; the published equations "
-                            f"have no such bound, so the kinetics differ wherever the bound is active", node=node_)
-                keys = set(upd) | set(sp["states"])
-                for key in sorted(keys):
-                    programs += 1
-                    if key not in sp["states"]:
-                        col.bad("R-C04-eq", fi, f"update of {key}", "state update without a published law",
-                                node=fi.node)
-                        continue
-                    if key not in upd:
-                        col.bad("R-C04-eq", fi, f"update of {key}",
-                                "published state is not updated by update_states", node=fi.node)
-                        continue
-                    skind, ra, rb = sp["states"][key]
-                    new = kin.main_region(upd[key])
-                    k, xinf, E = kin.decompose_update(ev, new, f"S[{key}]")
-                    a, b = kin.ref(ev, ra), kin.ref(ev, rb)
-                    if skind == "ab":
-                        k_ref, x_ref = a + b, a / (a + b)
-                    else:
-                        k_ref, x_ref = ONE / b, a
-                    col.check(k.eq(k_ref), "R-C04-eq", fi, f"update of {key}: rate 1/tau",
-                              "rate of the exponential update equals the published 1/tau",
-                              f"the update of {key} relaxes with a rate different from the published one",
-                              node=fi.node, sides={"code": repr(k)[:400], "reference": repr(k_ref)[:400]})
-                    col.check(xinf.eq(x_ref), "R-C04-eq", fi, f"update of {key}: steady state",
-                              "target of the exponential update equals the published steady state",
-                              f"the update of {key} relaxes toward a value different from the published steady state",
-                              node=fi.node, sides={"code": repr(xinf)[:400], "reference": repr(x_ref)[:400]})
-            except Und as e:
-                col.unk("R-C04-eq", fi, "update_states", f"outside the analysable fragment: {e}", node=fi.node)
+        programs += update_laws(repo, col, "R-C04-eq", name, sp, cinfo, kind)
         # ---- current
         ev = kin.new_eval(repo)
         fi = repo.method(name, "compute_current")
@@ -187,6 +150,51 @@ def check(repo, col, tier):
     _check_rename(repo, col)
     col.info["programs"] = programs
     col.info["disagreements_checked"] = sum(1 for o in col.obs if o.rule == "R-C04-eq" and o.status != "DISCHARGED")
+
+
+def update_laws(repo, col, R, name, sp, cinfo, kind) -> int:
+    """Rate and steady state of every state update against the reference equations (spec/kinetics.txt)."""
+    programs = 0
+    if sp["states"] or "update_states" in cinfo.methods:
+        ev = kin.new_eval(repo)
+        fi = repo.method(name, "update_states")
+        try:
+            upd, S, P = kin.call_update(ev, repo, name, kind)
+            for kind_, stack, node_ in kin.foreign_saturation(ev):
+                col.bad(R, fi, f"update_states: `{kind_}` inside the published kinetics",
+                        f"`{unparse(node_)[:70]}` saturates a quantity of {name}.update_states; the published equations "
+                        f"have no such bound, so the kinetics differ wherever the bound is active", node=node_)
+            keys = set(upd) | set(sp["states"])
+            for key in sorted(keys):
+                programs += 1
+                if key not in sp["states"]:
+                    col.bad(R, fi, f"update of {key}", "state update without a published law",
+                            node=fi.node)
+                    continue
+                if key not in upd:
+                    col.bad(R, fi, f"update of {key}",
+                            "published state is not updated by update_states", node=fi.node)
+                    continue
+                skind, ra, rb = sp["states"][key]
+                new = kin.main_region(upd[key])
+                k, xinf, E = kin.decompose_update(ev, new, f"S[{key}]")
+                a, b = kin.ref(ev, ra), kin.ref(ev, rb)
+                if skind == "ab":
+                    k_ref, x_ref = a + b, a / (a + b)
+                else:
+                    k_ref, x_ref = ONE / b, a
+                col.check(k.eq(k_ref), R, fi, f"update of {key}: rate 1/tau",
+                          "rate of the exponential update equals the published 1/tau",
+                          f"the update of {key} relaxes with a rate different from the published one",
+                          node=fi.node, sides={"code": repr(k)[:400], "reference": repr(k_ref)[:400]})
+                col.check(xinf.eq(x_ref), R, fi, f"update of {key}: steady state",
+                          "target of the exponential update equals the published steady state",
+                          f"the update of {key} relaxes toward a value different from the published steady state",
+                          node=fi.node, sides={"code": repr(xinf)[:400], "reference": repr(x_ref)[:400]})
+        except Und as e:
+            col.unk(R, fi, "update_states", f"outside the analysable fragment: {e}", node=fi.node)
+
+    return programs
 
 
 def _taylor_exprel(ev_, args, kw):
@@ -262,19 +270,41 @@ def _check_keys(repo, col, cinfo, kind):
         fi = cinfo.methods[mname]
         pn = _prefix_names(fi.node)
         params = fi.params
+        dynamic_keys = False
         # which parameter is the states dict / the params dict
         for n in ast.walk(fi.node):
             if isinstance(n, ast.Subscript) and isinstance(n.value, ast.Name) and n.value.id in ("states", "params"):
                 pat, k = _pattern_of_key(n.slice, pn)
                 decl = ds if n.value.id == "states" else dp
                 if pat is None:
-                    col.unk("R-C04-keys", fi, n, "key is neither a literal nor built from self._name")
+                    dynamic_keys = True
                     continue
                 col.check(pat in decl, "R-C04-keys", fi, f"{n.value.id}[{pat}]",
                           "key is declared by the class",
                           f"`{unparse(n)}` reads key pattern `{pat}` which {cinfo.name} does not declare in "
                           f"{'its states' if n.value.id == 'states' else 'its parameters'} "
                           f"(declared: {sorted(p for p in decl if p)})", node=n)
+        if dynamic_keys:
+            # keys computed at run time (a loop over a table of gates): take the keys the abstract evaluation reads/returns
+            try:
+                ev = kin.new_eval(repo)
+                if mname == "update_states":
+                    r, S, P = kin.call_update(ev, repo, cinfo.name, kind)
+                elif mname == "init_state":
+                    r, S, P = kin.call_init(ev, repo, cinfo.name)
+                else:
+                    r, S, P = kin.call_current(ev, repo, cinfo.name, kind)
+                for d, decl, what in ((S, ds, "states"), (P, dp, "params")):
+                    for key in sorted(set(d.reads)):
+                        col.check(key in decl, "R-C04-keys", fi, f"{what}[{key}] (key computed at run time)", "key is declared by the class",
+                                  f"{mname} reads key `{key}` which {cinfo.name} does not declare (declared: {sorted(p for p in decl if p)})",
+                                  node=fi.node)
+                if isinstance(r, dict) and mname != "compute_current":
+                    for key in r:
+                        col.check(key in ds, "R-C04-keys", fi, f"returned key {key} (computed at run time)", "returned key is a declared state",
+                                  f"{mname} returns key `{key}` which is not a declared state of {cinfo.name}", node=fi.node)
+            except Und as e:
+                col.unk("R-C04-keys", fi, f"{mname}: keys computed at run time", f"outside the analysable fragment: {e}", node=fi.node)
         # returned dict keys must be declared states
         for n in walk_no_nested(fi.node):
             if isinstance(n, ast.Return) and isinstance(n.value, ast.Dict) and mname != "compute_current":
